@@ -96,8 +96,11 @@ check('C02',
       'MultiCommodityContract (the contract delivering into several nodes with factors) and ExtendedTransport (transport + take rows on the '
       'quantity leaving node 1) likewise; a boolean test of the instance hypotheses is proved sufficient (RefCorr.v) and evaluated on every '
       'generated portfolio of these classes; (3) building blocks for all classes: in/out split, limits = rate x step length, transport '
-      'flows, level recursion, holding cost by Abel summation, take prorating, portfolio = direct sum + nodal rows. Not proved: '
-      'instances for coarse / periodic asset grids and the storage binaries; the '
+      'flows, level recursion, holding cost by Abel summation, take prorating, portfolio = direct sum + nodal rows; (4) coarser asset '
+      'frequency (RefCoarse.v): any unit whose mapping is extended to the minor steps realises the textbook object with flows spread in '
+      'proportion to the step lengths, and the builders of SimpleContract, Transport and Storage on a coarse grid are exactly such units '
+      '(prices averaged over the minor steps). Not proved: '
+      'instances for periodic assets, take periods on a coarse frequency and the storage binaries; the '
       'discount factor itself (irrational power, data). Decided per instance: every model builder is compared with the implementation; '
       'for portfolios of the covered classes Coq evaluates the textbook program on EAO\'s result (value = - textbook cost, reported '
       'dispatch = textbook flows, nodal balance); for all classes EAO\'s optimum is compared with the optimum of an independently '
